@@ -270,10 +270,17 @@ func TestC17(t *testing.T) {
 }
 
 func TestReplay(t *testing.T) {
+	run := stats.Begin("C17", "TestReplay")
+	if stats.ReplayTest() == "TestC17_Temporal" {
+		var tc TCase
+		if stats.LoadReplay(t, &tc) {
+			checkTemporal(run, t, tc)
+		}
+		return
+	}
 	var c Case
 	if !stats.LoadReplay(t, &c) {
 		return
 	}
-	run := stats.Begin("C17", "TestReplay")
 	check(run, t, c)
 }
